@@ -292,12 +292,15 @@ class ModGen:
         al = na = '-'
         if rng.random() < 0.3:
             k = rng.random()
-            if k < 0.4:
-                al = rng.choice(['A', 'al_1', 'x.y'])
+            # alias only / nonalias only / both (also the same name in both places); now and then names that look
+            # like something else in the text syntax (a type, a label, a register of the function, a keyword)
+            odd = ['i64', 'L1', 'local', 'u8'] + ir[:1] if rng.random() < 0.15 else []
+            if k < 0.35:
+                al = rng.choice(odd or ['A', 'al_1', 'x.y'])
             elif k < 0.7:
-                na = rng.choice(['N', 'na_2', 'A'])
+                na = rng.choice(odd or ['N', 'na_2', 'A'])
             else:
-                al, na = rng.choice(['A', 'B2']), rng.choice(['N', 'A'])
+                al, na = rng.choice(odd or ['A', 'B2']), rng.choice(odd or ['N', 'A', 'B2'])
         return 'm:%s:%d:%s:%s:%d:%s:%s' % (t, disp, base, index, scale, al, na)
 
     def va_list_op(self, fn):
@@ -334,6 +337,26 @@ class ModGen:
         """a string operand; now and then a pair of strings of equal length that agree up to an embedded NUL and differ
         after it (a string table comparing with strcmp/strncmp would merge them)"""
         rng = self.rng
+        if rng.random() < 0.2:
+            # the boundary of "a table string is a C string": NUL first, only NULs, a NUL right after a prefix that is
+            # also a name of the module (names are stored in the same table with their NUL), one string a proper
+            # prefix of another up to and including a NUL
+            k = rng.random()
+            tail = bytes(rng.choice(b'abcxyz01') for _ in range(rng.choice([1, 2, 5])))
+            if k < 0.25:
+                s = b'\0' * rng.choice([1, 1, 2, 3]) + tail + b'\0'
+            elif k < 0.45:
+                s = b'\0' * rng.choice([1, 2, 3, 4, 9])
+            elif k < 0.75 and self.names:
+                s = rng.choice(sorted(self.names)).encode() + b'\0' + (tail + b'\0' if rng.random() < 0.7 else b'')
+            elif self.prev_strings:
+                p, _ = rng.choice(self.prev_strings)
+                s = p + tail + b'\0'
+            else:
+                s = tail + b'\0' + tail + b'\0'
+            if len(s) >= 2:
+                self.prev_strings.append((s, s.index(b'\0')))
+            return s
         if self.prev_strings and rng.random() < 0.35:
             p, k = rng.choice(self.prev_strings)
             tail = bytes((c + 1 + rng.randint(0, 200)) % 256 for c in p[k + 1:len(p) - 1])
